@@ -84,9 +84,20 @@ def run(ctx, anchors=None):
         raise AnalysisBroken("R16.3: expected one call of the operation step in Instance::eval, found %d" % len(calls))
     call = calls[0]
     cfg = ev.cfg()
+    sd = astq.single_defs(ev)
+
+    def is_step_result(cid):
+        n_ = ev.node_by_id(cid)
+        if n_ is None:
+            return False
+        if n_["id"] == call["id"] or (astq.is_call(n_) and n_.get("cid") == opstep.id):
+            return True
+        if n_.get("k") == "ref" and n_.get("d") in sd:
+            return any(x is call for x in walk(sd[n_["d"]]))
+        return False
     fail_succ = None
     for (blk, s_, c, t) in cfg.cond_edges():
-        if c == call["id"] and t is False:
+        if is_step_result(c) and t is False:      # the step's result tested directly or through a local that holds it
             fail_succ = s_
     errp = [n for n in ev.nodes() if n["k"] == "call" and n.get("n") in ("fprintf", "printf") and any(x["k"] == "call" and x.get("n") == "ScriptErrorString" for a in n["args"] if a for x in walk(a))]
     retf = [n for n in ev.nodes() if n["k"] == "return" and astq.const_value(n.get("e")) == 0]
@@ -105,6 +116,25 @@ def run(ctx, anchors=None):
     # the loop runs until the temporary script is exhausted
     loops = [l for l in ev.nodes() if l["k"] == "while" and S.contains(l, call)]
     ctx.inst(bool(loops) and "end()" in astq.estr(loops[0]["cond"]), "R16.3", "all-operations-executed", ev.loc(call), "the loop continues until the end of the temporary script")
+    # no way out of the stepping loop except a failed operation (seed C16-K: `if (env->done) return false;` in front of the step -
+    # exec silently does nothing once the session has finished, where the same operations as next operations of the script run):
+    # every return / break / goto inside the loop is reached only over the step's failure edge (directly, or through a local
+    # that holds the step's result), or sits in a handler of a try around the step (a throwing operation is a failed one)
+    if loops:
+        exits = [n for n in walk(loops[0]["body"]) if n.get("k") in ("return", "break", "goto")]
+        early = []
+        for x in exits:
+            in_handler = any(a.get("k") == "try" and S.contains(a["body"], call) and not S.contains(a["body"], x) for a in ev.ancestors(x))
+            inner_loop = x["k"] == "break" and any(a.get("k") in ("while", "for", "do", "switch", "rangefor") and a is not loops[0] and S.contains(loops[0], a) for a in ev.ancestors(x))
+            if in_handler or inner_loop:
+                continue
+            if not any(t is False and is_step_result(c) for (c, t) in cfg.guards_of(x)):
+                early.append(x)
+        ctx.site(len(exits))
+        ctx.inst(not early, "R16.3", "loop-left-only-on-failure", ev.loc(early[0]) if early else ev.loc(call),
+                 "the stepping loop of exec is left early only when an operation failed (%d exit(s) inspected)" % len(exits),
+                 "exec can stop at %s before all operations were executed without any operation having failed (guards: %s): the operations would run as next operations of the script" %
+                 (ev.loc(early[0]) if early else "", sorted(astq.estr(ev.node_by_id(c))[:50] + ("" if t else " is false") for (c, t) in cfg.guards_of(early[0]) if ev.node_by_id(c) is not None)[:4] if early else ""))
     # ---- R16.5
     nuse = 0
     for f in (opstep, ext):
@@ -145,6 +175,7 @@ MUTANTS = [
     dict(name="exec-restores-stack-on-exception", file="functions.cpp", find="    } catch (std::exception const& ex) {\n        fprintf(stderr, \"exception: %s\\n\", ex.what());\n    }\n    print_dualstack();", replace="    } catch (std::exception const& ex) {\n        fprintf(stderr, \"exception: %s\\n\", ex.what());\n        env->stack.clear();\n    }\n    print_dualstack();", expect=["R16.1:exec-command-does-not-touch-session"]),
     dict(name="exec-moves-session-pc", file="instance.cpp", find="    CScript::const_iterator it = script.begin();\n    while (it != script.end()) {\n        if (!StepScript(*env, it, &script)) {",
          replace="    CScript::const_iterator it = script.begin();\n    while (it != script.end()) {\n        env->curr_op_seq++;\n        if (!StepScript(*env, it, &script)) {", expect=["R16.1:exec-writes=curr_op_seq"]),
+    dict(name="exec-refuses-once-the-session-is-done", file="instance.cpp", find="        if (!StepScript(*env, it, &script)) {", replace="        if (env->done) return false;\n        if (!StepScript(*env, it, &script)) {", expect=["R16.3:loop-left-only-on-failure"]),
     dict(name="exec-uses-session-pc", file="instance.cpp", find="        if (!StepScript(*env, it, &script)) {", replace="        if (!StepScript(*env, env->pc, &script)) {", expect=["R16.3:local-iterator", "R16.1:exec-writes=pc"]),
     dict(name="exec-try-removed", file="functions.cpp", find="    try {\n        instance.eval(argc, argv);\n    } catch (std::exception const& ex) {\n        fprintf(stderr, \"exception: %s\\n\", ex.what());\n    }", replace="    instance.eval(argc, argv);",
          expect=["R16.2:exec-callback-catches"]),
